@@ -8,3 +8,4 @@ open AC.Props.C08
 #print axioms C08_strategy_range
 #print axioms C08_src_halving
 #print axioms C08_src_deltaLargest
+#print axioms C08_src_strategies
